@@ -193,20 +193,50 @@ def run(prop, replay_file=None):
             if not r.ok:
                 rep.machinery.append("the specification itself violates %s on instance %s (spec error, not a code defect)"
                                      % (r.violated, name))
+        if prop == "C04":
+            # progress: under fairness of "an update in exchange hours happens", every submitted order is eventually
+            # filled; checked on an instance that is finite without any state constraint.  Without the fairness
+            # assumption TLC must find the behaviour in which the clock never reaches exchange hours.
+            for spec_name, expect_ok in (("Spec", True), ("SpecNoFairness", False)):
+                with open(os.path.join(w, "live.cfg"), "w") as fh:
+                    fh.write('SPECIFICATION %s\nCONSTANTS\n  Assets = {%s}\n  MaxOrders = %d\nINVARIANT C04_Status\n'
+                             'PROPERTY C04_EventuallyFilled\nPROPERTY C04_FilledForGood\nPROPERTY C04_Step\nCHECK_DEADLOCK FALSE\n'
+                             % (spec_name, '"A"' if t == "quick" or not expect_ok else '"A", "B"', 2 if t == "quick" or not expect_ok else 3))
+                try:
+                    r = tlc.run(w, "MC_BrokerLive", "live.cfg", workers=16, timeout=3000)
+                    if expect_ok:
+                        rep.add_mc(r, "MC_BrokerLive (liveness under fairness)")
+                        if not r.ok:
+                            rep.machinery.append("Broker.tla violates %s on the liveness instance (spec error)" % r.violated)
+                    else:
+                        rep.cov.setdefault("spec_sensitivity", {})["liveness_without_fairness"] = r.violated
+                        if r.violated is None:
+                            rep.machinery.append("sensitivity: liveness held without the fairness assumption (vacuous?)")
+                except tlc.TLCError as e:
+                    rep.machinery.append("TLC failed on MC_BrokerLive: %s" % str(e)[-1200:])
         if prop == "C03":
             # one position in isolation: every sign pattern of up to MaxFills fills with interleaved marks
             with open(os.path.join(w, "pos.cfg"), "w") as fh:
-                fh.write("SPECIFICATION Spec\nCONSTANT MaxFills = %d\nINVARIANT C03_Identities\nPROPERTY C03_Mark\nVIEW View\n"
+                fh.write("SPECIFICATION Spec\nCONSTANTS\n  MaxFills = %d\n  Direct = FALSE\nINVARIANT C03_Identities\nPROPERTY C03_Mark\nVIEW View\n"
                          "CHECK_DEADLOCK FALSE\n" % (4 if t == "quick" else 6))
             try:
                 r = tlc.run(w, "MC_Position", "pos.cfg", workers=16, timeout=3000)
                 rep.add_mc(r, "MC_Position")
                 if not r.ok:
                     rep.machinery.append("Position.tla itself violates %s (spec error)" % r.violated)
+                # the Position class used directly: it survives being flat and is traded again (the "flat" control path)
+                with open(os.path.join(w, "posd.cfg"), "w") as fh:
+                    fh.write("SPECIFICATION Spec\nCONSTANTS\n  MaxFills = %d\n  Direct = TRUE\nINVARIANT C03_Identities\nPROPERTY C03_Mark\nVIEW View\n"
+                             "CHECK_DEADLOCK FALSE\n" % (4 if t == "quick" else 5))
+                r = tlc.run(w, "MC_Position", "posd.cfg", workers=16, timeout=3000)
+                rep.add_mc(r, "MC_Position(direct)")
+                if not r.ok:
+                    rep.machinery.append("Position.tla (direct use) violates %s (spec error)" % r.violated)
+                position_direct_conformance(rep, w, t, sd)
                 # vacuity: flips through zero and close-to-zero-and-reopen must be reachable
                 for probe in ("NeverFlipped", "NeverReopened"):
                     with open(os.path.join(w, "probe.cfg"), "w") as fh:
-                        fh.write("SPECIFICATION Spec\nCONSTANT MaxFills = 4\nINVARIANT %s\nVIEW View\nCHECK_DEADLOCK FALSE\n" % probe)
+                        fh.write("SPECIFICATION Spec\nCONSTANTS\n  MaxFills = 4\n  Direct = FALSE\nINVARIANT %s\nVIEW View\nCHECK_DEADLOCK FALSE\n" % probe)
                     rp = tlc.run(w, "MC_Position", "probe.cfg", workers=4, timeout=600)
                     rep.cov.setdefault("vacuity_probes", {})[probe] = "reached" if rp.violated == probe else "NOT REACHED"
                     if rp.violated != probe:
@@ -260,7 +290,7 @@ def run(prop, replay_file=None):
         nvalid += nsess
         rep.cov["session_traces_validated"] = nsess
         desc, pred = NONTRIVIAL[prop]
-        rep.cov["evaluations"] = ncalls + ncover + rep.cov.get("trace_events", 0)
+        rep.cov["evaluations"] = ncalls + ncover + rep.cov.get("trace_events", 0) + rep.cov.get("position_direct", {}).get("steps", 0)
         rep.cov["distinct_nontrivial"] = sum(1 for f in feats_all.values() if pred(f))
         rep.cov["traces_validated_against_impl"] = nbeh + nvalid + (1 if ncover else 0)
         rep.cov["behaviours_replayed"] = nbeh
@@ -421,6 +451,76 @@ def validate_random_traces(rep, prop, w, n, sd):
                             calls=[e["call"] for e in chunk[0]["ev"][:10]]))
     rep.cov["trace_events"] = nev
     return nvalid, feats
+
+
+def position_direct_conformance(rep, w, t, sd):
+    """TLC -simulate behaviours of MC_Position in direct mode stepped through REAL Position objects
+    (open_from_transaction / transact / update_current_price), comparing after every step net quantity, market
+    value, average price and the three P&L figures with TLC's exact values."""
+    import pandas as pd
+    from fractions import Fraction
+    from qstrader.broker.portfolio.position import Position
+    from qstrader.broker.transaction.transaction import Transaction
+    from .broker_rig import ts
+    simdir = os.path.join(w, "simpos")
+    os.mkdir(simdir)
+    with open(os.path.join(w, "simpos.cfg"), "w") as fh:
+        fh.write("SPECIFICATION Spec\nCONSTANTS\n  MaxFills = 9\n  Direct = TRUE\nCHECK_DEADLOCK FALSE\n")
+    try:
+        tlc.run(w, "MC_Position", "simpos.cfg", workers=16, simulate="file=%s/tr,num=%d" % (simdir, 6 if t == "quick" else 80),
+                depth=14, seed=sd * 3 + 11, deadlock_off=True, timeout=1200)
+    except tlc.TLCError as e:
+        rep.machinery.append("TLC simulation of MC_Position failed: %s" % str(e)[-1000:])
+        return
+    nb = ns = 0
+    t0 = 18264 * 1440 + 900
+    for f in sorted(glob.glob(simdir + "/tr_*")):
+        states = [st for _n, _a, st in tlc.parse_sim_file(f)]
+        pos = None
+        nb += 1
+        for k, S in enumerate(states[1:], 1):
+            P0, P1 = states[k - 1]["P"], S["P"]
+            when = ts(t0 + k)
+            try:
+                if S["last"] == "fill":
+                    if "none" in P0:
+                        q = P1["bq"] - P1["sq"]
+                        px = P1["px"]
+                        comm = P1["bc"] + P1["sc"]
+                        pos = Position.open_from_transaction(Transaction("EQ:X", q, when, px / 1000.0, "o%d" % k, commission=comm / 1000.0))
+                    else:
+                        q = (P1["bq"] - P0["bq"]) - (P1["sq"] - P0["sq"])
+                        px = P1["px"]
+                        comm = (P1["bc"] - P0["bc"]) + (P1["sc"] - P0["sc"])
+                        pos.transact(Transaction("EQ:X", q, when, px / 1000.0, "o%d" % k, commission=comm / 1000.0))
+                else:
+                    pos.update_current_price(P1["px"] / 1000.0, when)
+            except Exception as e:
+                rep.violation("position-direct|raised", "Position raised %s: %s at step %d" % (type(e).__name__, e, k),
+                              dict(kind="position-direct", file=os.path.basename(f), step=k))
+                break
+            ns += 1
+            v = S["view"]
+            got = dict(net=pos.net_quantity, mv=pos.market_value, avg=pos.avg_price, rpnl=pos.realised_pnl, upnl=pos.unrealised_pnl,
+                       tpnl=pos.total_pnl)
+            bad = None
+            if got["net"] != v["net"]:
+                bad = "net quantity %s, expected %s" % (got["net"], v["net"])
+            elif abs(got["mv"] * 1000 - v["mv"]) > 1e-6:
+                bad = "market value %r, expected %s mil" % (got["mv"], v["mv"])
+            else:
+                for key in ("avg", "rpnl", "upnl", "tpnl"):
+                    if not broker_conf.rat_close(float(got[key]), v[key]):
+                        bad = "%s %r, expected %s/%s mil (position: bought %s sold %s)" % (key, got[key], v[key][0], v[key][1], P1["bq"], P1["sq"])
+                        break
+            if bad:
+                flat_before = "none" not in P0 and P0["bq"] == P0["sq"]
+                rep.violation("position-direct|%s" % ("after-flat" if flat_before else "general"),
+                              "C03 (Position used directly): %s at step %d of %s" % (bad, k, [(x["last"], x["P"].get("bq"), x["P"].get("sq"), x["P"].get("px")) for x in states[1:k + 1]]),
+                              dict(kind="position-direct", steps=[(x["last"], x["P"]) for x in states[1:k + 1]]))
+                break
+    shutil.rmtree(simdir, ignore_errors=True)
+    rep.cov["position_direct"] = dict(behaviours=nb, steps=ns)
 
 
 def _session_trace_job(job):
